@@ -210,6 +210,7 @@ HInit(T, e) ==
    udone    |-> {},
    nupd     |-> 0,             \* vehicle updates / instruction attempts recorded in this step (hook presence)
    ninstr   |-> 0,
+   qbegin   |-> <<>>,          \* the charge queues at the beginning of the step: vehicle -> [s, p, enq]  (C18 over the step)
    steps    |-> 0]
 
 Reports(e, type) == {e.rep[i] : i \in {i \in DOMAIN e.rep : e.rep[i].type = type}}
@@ -253,6 +254,9 @@ HNext(Hh, B, T, e) ==
      !.udone = IF e.ev = "begin" THEN {} ELSE IF e.ev = "update" THEN @ \cup {e.v} ELSE @,
      !.nupd = IF e.ev = "begin" THEN 0 ELSE IF e.ev = "update" THEN @ + 1 ELSE @,
      !.ninstr = IF e.ev = "begin" THEN 0 ELSE IF e.ev = "instr" THEN @ + 1 ELSE @,
+     !.qbegin = IF e.ev = "begin"
+                THEN [v \in {v \in DOMAIN T.veh : T.veh[v].act = "ChargeQueueing"} |-> [s |-> T.veh[v].tgt, p |-> T.veh[v].plug, enq |-> T.veh[v].enq]]
+                ELSE @,
      !.steps = IF e.ev = "end" THEN @ + 1 ELSE @]
 
 -----------------------------------------------------------------------------
@@ -481,6 +485,7 @@ MonStep(Hh, B, T, e) ==
   \cup (IF e.ev = "end"
         THEN MonState(Hh, T)
              \cup (IF Has("C03") THEN C03_Conservation(Hn, T) ELSE {})
+             \cup (IF Has("C18") THEN C18_Boundary(Hh.qbegin, T, LAMBDA a, b : Hh.vrank[a] < Hh.vrank[b]) ELSE {})
              \cup (IF Has("C04") THEN C04_State(T, Hh.cap, Hh.en0) ELSE {})
              \cup (IF Has("C05") THEN C05_Totals(T, Hh.disp0, Hn.fares, Hn.nev) ELSE {})
         ELSE {})
